@@ -15,10 +15,10 @@ LEVEL_TEXT = ('every state of $topdir/.Trash (sticky dir, non-sticky dir, symlin
               'a populated .Trash/$uid is presented to each of the five commands; insecure => the subtree is byte-identical afterwards and '
               'none of its entries is listed, offered, restored or purged; secure control => it IS used (no vacuous pass)')
 LEVEL_NOTE = 'trusted: shim mount table / psutil substitute; ownership checks of .Trash/$uid itself are not part of the property'
-RULE = ('.Trash state (6) x command (put, list, restore+reply, empty, empty 0, rm *, rm exact) x volumes (v1 only; v1 insecure + v2 secure) x uid '
+RULE = ('.Trash state (8, incl. mode 2777 and 0700) x command (put, list, restore+reply, empty, empty 0, rm *, rm exact, list --all-users and empty --all-users with three accounts in /etc/passwd) x volumes (v1 only; v1 insecure + v2 secure) x uid '
         '(0, 1000); non-trivial = the command examined the volume (stat of .Trash seen in the trace); distinct = outcome class x state x command')
-STATES = ['sticky', 'nonsticky', 'nonsticky-private', 'symlink-sticky', 'symlink-nonsticky', 'file', 'absent']
-CMDS = ['put', 'list', 'restore', 'empty', 'empty0', 'rm-star', 'rm-exact', 'put-then-insecure']
+STATES = ['sticky', 'nonsticky', 'nonsticky-setgid', 'nonsticky-private', 'symlink-sticky', 'symlink-nonsticky', 'file', 'absent']
+CMDS = ['put', 'list', 'restore', 'empty', 'empty0', 'rm-star', 'rm-exact', 'put-then-insecure', 'list-all-users', 'empty-all-users']
 VOLS = ['v1', 'v1+v2', 'v1-sticky-topdir']
 
 
@@ -55,8 +55,8 @@ def run_case(c):
     if st == 'sticky':
         W.dir('/mnt/v1/.Trash', mode=0o1777)
         phys = '/mnt/v1/.Trash'
-    elif st in ('nonsticky', 'nonsticky-private'):
-        W.dir('/mnt/v1/.Trash', mode=0o777 if st == 'nonsticky' else 0o700)
+    elif st in ('nonsticky', 'nonsticky-private', 'nonsticky-setgid'):
+        W.dir('/mnt/v1/.Trash', mode={'nonsticky': 0o777, 'nonsticky-private': 0o700, 'nonsticky-setgid': 0o2777}[st])
         phys = '/mnt/v1/.Trash'
     elif st in ('symlink-sticky', 'symlink-nonsticky'):
         W.dir('/mnt/v1/.real', mode=0o1777 if st == 'symlink-sticky' else 0o777).link('/mnt/v1/.Trash', '.real')
@@ -64,6 +64,12 @@ def run_case(c):
     elif st == 'file':
         W.file('/mnt/v1/.Trash', 'x')
     td = populate(W, phys, uid, '/mnt/v1', 'v1') if phys else None
+    OTHER = 1001
+    if c['cmd'].endswith('-all-users'):
+        # three accounts: one without any trash directory (listed first), the invoking user, and another user whose $topdir/.Trash/$uid is populated too
+        W.file('/etc/passwd', 'ghost:x:4242:4242::/home/ghost:/bin/sh\nme:x:%d:%d::/home/u:/bin/sh\nbob:x:%d:%d::/home/bob:/bin/sh\n' % (uid, uid, OTHER, OTHER))
+        if phys:
+            populate(W, phys, OTHER, '/mnt/v1', 'v1b')
     if c['vols'] == 'v1+v2':
         W.dir('/mnt/v2/.Trash', mode=0o1777)
         td2 = populate(W, '/mnt/v2/.Trash', uid, '/mnt/v2', 'v2')
@@ -71,7 +77,8 @@ def run_case(c):
     argv, stdin = {'put': (['trash-put', 'new'], None), 'list': (['trash-list'], None),
                    'restore': (['trash-restore', '/'], '0\n'), 'empty': (['trash-empty'], None),
                    'empty0': (['trash-empty', '0'], None), 'rm-star': (['trash-rm', '*'], None),
-                   'rm-exact': (['trash-rm', '/mnt/v1/w/one-v1'], None), 'put-then-insecure': (None, None)}[cmd]
+                   'rm-exact': (['trash-rm', '/mnt/v1/w/one-v1'], None), 'put-then-insecure': (None, None),
+                   'list-all-users': (['trash-list', '--all-users'], None), 'empty-all-users': (['trash-empty', '--all-users'], None)}[cmd]
     if cmd == 'put-then-insecure':
         return run_put_then_insecure(c, W, uid, td)
     with cell.Sandbox(W.spec()) as sb:
@@ -83,9 +90,9 @@ def run_case(c):
     if cmd == 'restore' and ('myalt-x1' not in r.out or (c['vols'] == 'v1+v2' and 'one-v2' not in r.out)):
         return {'verdict': 'viol', 'sig': 'C08|restore-does-not-offer-entries-of-usable-trash-dirs|st=%s' % st, 'klass': 'usable-not-offered',
                 'detail': {'out': r.out[-400:], 'err': r.err[-300:]}}
-    if cmd == 'list' and 'myalt-x1' not in r.out:
+    if cmd in ('list', 'list-all-users') and 'myalt-x1' not in r.out:
         return {'verdict': 'viol', 'sig': 'C08|own-Trash-uid-not-listed|st=%s' % st, 'klass': 'alt-not-listed', 'detail': {'out': r.out[-300:], 'err': r.err[-300:]}}
-    if cmd in ('empty', 'rm-star') and world.under(after, alt + '/files/myalt'):
+    if cmd in ('empty', 'rm-star', 'empty-all-users') and world.under(after, alt + '/files/myalt'):
         return {'verdict': 'viol', 'sig': 'C08|own-Trash-uid-not-purged|cmd=%s|st=%s' % (cmd, st), 'klass': 'alt-not-purged', 'detail': {'err': r.err[-300:]}}
     examined = any('/mnt/v1/.Trash' in p for t in r.trace for p in t[2])
     dims = 'st=%s|cmd=%s' % (st, cmd)
@@ -104,23 +111,30 @@ def run_case(c):
             changed = sorted(k for k in set(sub_b) | set(sub_a) if sub_b.get(k) != sub_a.get(k))
             return {'verdict': 'viol', 'sig': 'C08|insecure-top-modified|cmd=%s|st=%s' % (cmd, 'symlink' if 'symlink' in st else st),
                     'klass': 'insecure-modified', 'nontrivial': 'mod|' + dims, 'detail': dict(detail, changed=changed[:8])}
-        if mentions and cmd in ('list', 'restore'):
+        if mentions and cmd in ('list', 'restore', 'list-all-users'):
             return {'verdict': 'viol', 'sig': 'C08|insecure-top-shown|cmd=%s|st=%s' % (cmd, 'symlink' if 'symlink' in st else st),
                     'klass': 'insecure-shown', 'nontrivial': 'shown|' + dims, 'detail': detail}
         if cmd == 'put':
             if not world.under(after, '/mnt/v1/.Trash-%d/files/new' % uid) or r.exit != 0:
                 return {'verdict': 'viol', 'sig': 'C08|put-did-not-fall-through|st=%s' % st, 'klass': 'no-fallthrough',
                         'nontrivial': 'nofall|' + dims, 'detail': detail}
-        if cmd == 'list' and st in ('nonsticky', 'nonsticky-private', 'symlink-sticky', 'symlink-nonsticky') and '/mnt/v1/.Trash' not in r.err:
+        if cmd == 'list' and st in ('nonsticky', 'nonsticky-private', 'nonsticky-setgid', 'symlink-sticky', 'symlink-nonsticky') and '/mnt/v1/.Trash' not in r.err:
             return {'verdict': 'viol', 'sig': 'C08|list-silent-about-skipped-dir|st=%s' % st, 'klass': 'list-silent',
                     'nontrivial': 'silent|' + dims, 'detail': detail}
+        if cmd == 'list-all-users' and st in ('nonsticky', 'nonsticky-private', 'nonsticky-setgid', 'symlink-sticky', 'symlink-nonsticky'):
+            silent = [u for u in (uid, OTHER) if '/mnt/v1/.Trash/%d' % u not in r.err]
+            if silent:
+                return {'verdict': 'viol', 'sig': 'C08|list-silent-about-skipped-dir|all-users|st=%s' % st, 'klass': 'list-silent',
+                        'nontrivial': 'silent|' + dims, 'detail': dict(detail, not_reported_for_uid=silent)}
         if c['vols'] == 'v1+v2' and cmd == 'list' and not ('one-v2' in r.out and 'two-v2' in r.out):
             return {'verdict': 'viol', 'sig': 'C08|secure-volume-not-listed', 'klass': 'secure-not-listed', 'detail': detail}
         return {'verdict': 'ok', 'klass': 'insecure:ignored', 'nontrivial': examined and ('ignored|' + dims), 'detail': detail}
     # secure control group: the directory must be used
     used = {'put': bool(world.under(after, td + '/files/new')), 'list': mentions, 'restore': mentions,
             'empty': not world.under(after, td + '/files/one'), 'empty0': not world.under(after, td + '/files/one'),
-            'rm-star': not world.under(after, td + '/files/one'), 'rm-exact': not world.under(after, td + '/files/one')}[cmd]
+            'rm-star': not world.under(after, td + '/files/one'), 'rm-exact': not world.under(after, td + '/files/one'),
+            'list-all-users': 'one-v1b' in r.out and '/mnt/v1/w/one-v1\n' in r.out,
+            'empty-all-users': not world.under(after, td + '/files/one') and not world.under(after, '%s/%d/files/one' % (phys, OTHER))}[cmd]
     if not used:
         return {'verdict': 'viol', 'sig': 'C08|secure-top-not-used|cmd=%s' % cmd, 'klass': 'secure-not-used', 'nontrivial': 'notused|' + dims,
                 'detail': detail}
